@@ -17,6 +17,7 @@ import (
 	"github.com/huderlem/poryscript/parser"
 
 	"pmc/internal/comp"
+	"pmc/internal/dict"
 	"pmc/internal/harness"
 	"pmc/internal/model"
 )
@@ -64,7 +65,7 @@ type c18Config struct {
 	cmd  string // identifies the command config: lint and normal runs are compared per command config
 }
 
-var c18CmdShipped, c18CmdNeg, c18CmdBig parser.CommandConfig
+var c18CmdShipped, c18CmdNeg, c18CmdBig, c18CmdDict parser.CommandConfig
 
 func repoDir() string {
 	if d := os.Getenv("PMC_REPO"); d != "" {
@@ -91,6 +92,28 @@ func c18Configs(tier string) []c18Config {
 		{"normal/no-optimize/no-lm/switches/shipped-font/shipped-cmd", comp.Opts{Path: "f.pory", Switches: sw, FontPath: font, Cmd: c18CmdShipped}, "shipped"},
 		{"lint/shipped-cmd", comp.Opts{Lint: true, Cmd: c18CmdShipped}, "shipped"},
 	}
+	// a command config whose keys are every identifier-like literal of the compiler's own source - keywords and operator
+	// names included (a config may list any string) - with var names, positions and empty entries rotating
+	if c18CmdDict.AutoVarCommands == nil {
+		c18CmdDict = parser.CommandConfig{AutoVarCommands: map[string]parser.AutoVarCommand{}}
+		for i, w := range dict.Identifiers(dict.Load(repoDir()), 24) {
+			switch i % 3 {
+			case 0:
+				c18CmdDict.AutoVarCommands[w] = parser.AutoVarCommand{VarName: "VAR_RESULT"}
+			case 1:
+				c18CmdDict.AutoVarCommands[w] = parser.AutoVarCommand{VarNameArgPosition: comp.IntPtr(0)}
+			default:
+				c18CmdDict.AutoVarCommands[w] = parser.AutoVarCommand{}
+			}
+		}
+		for _, w := range []string{"var", "flag", "defeated", "value", "format", "moves", "if", "while", "switch", "abc", "specialvar", "x"} {
+			c18CmdDict.AutoVarCommands[w] = parser.AutoVarCommand{VarName: "VAR_RESULT"}
+		}
+	}
+	cs = append(cs,
+		c18Config{"normal/optimize/lm-no-path/switches/no-font/dictionary-cmd", comp.Opts{Optimize: true, LineMarkers: true, Switches: sw, Cmd: c18CmdDict}, "dict"},
+		c18Config{"lint/dictionary-cmd", comp.Opts{Lint: true, Cmd: c18CmdDict}, "dict"},
+	)
 	if tier == "thorough" {
 		cs = append(cs,
 			c18Config{"lint/argpos-1-cmd", comp.Opts{Lint: true, Cmd: c18CmdNeg}, "neg"},
@@ -659,5 +682,5 @@ func runC18(tier string) int {
 		"configurations are a covering set, not the full matrix: every option value appears in at least one configuration",
 		"an error must be a parser.ParseError with 1 <= start line <= end line <= number of lines (counting the empty line after a final newline)")
 	return r.Finish(r.Get("evaluations"), r.Get("nontrivial"),
-		"(a) every sequence of <= L tokens from a 57-lexeme alphabet after each of 29 context prefixes, with 3 suffixes; (b) every single deviation (truncation, deletion, replacement or insertion by every alphabet token) of 10 seed programs that use every production (thorough: pairs of deviations on the small seeds); (c) every sequence of <= S well-formed statement templates (25 templates, shared with C01); (d) every sequence of <= D constant definitions over three names whose values mention each other, followed by a program using them at every use site; (e) every integer from 0 to 70000 (thorough 2^20), decimal and hex, at every position that interprets a number; (e') every scaled program (templates repeated K times, blocks nested K deep, switches with K cases); (f) every string of <= N characters over 23 characters incl. multi-byte letters, a 3-byte non-letter, U+FFFD, NUL, quote, backtick, CR, bare and inside 'script S { x('; each input under a covering set of configurations (optimize, line markers/path, switches, font file/default font, command configs incl. argument positions -1 and 3, normal and lint); evaluations = input x configuration runs; non-trivial = the input is rejected (an error path is taken)")
+		"(a) every sequence of <= L tokens from a 57-lexeme alphabet after each of 29 context prefixes, with 3 suffixes; (b) every single deviation (truncation, deletion, replacement or insertion by every alphabet token) of 10 seed programs that use every production (thorough: pairs of deviations on the small seeds); (c) every sequence of <= S well-formed statement templates (25 templates, shared with C01); (d) every sequence of <= D constant definitions over three names whose values mention each other, followed by a program using them at every use site; (e) every integer from 0 to 70000 (thorough 2^20), decimal and hex, at every position that interprets a number; (e') every scaled program (templates repeated K times, blocks nested K deep, switches with K cases); (f) every string of <= N characters over 23 characters incl. multi-byte letters, a 3-byte non-letter, U+FFFD, NUL, quote, backtick, CR, bare and inside 'script S { x('; each input under a covering set of configurations (optimize, line markers/path, switches, font file/default font, command configs incl. argument positions -1 and 3 and one whose keys are the identifier-like literals of the compiler's source and its keywords, normal and lint); evaluations = input x configuration runs; non-trivial = the input is rejected (an error path is taken)")
 }
